@@ -311,6 +311,30 @@ def empiricalDraw (fuel : Nat) (xs : List α) (ws : List Nat) : Outcome α :=
   | .panic => .panic
   | .hang => .hang
 
+/-! ## ConjugateModel (src/model.rs:121-141) -/
+
+/-- `ConjugateModel::draw`, model.rs:126-130: `post = self.posterior(); fx = post.draw(rng); fx.draw(rng)`.
+    `postDraw i` = the posterior's `draw` started at word `i` (a `rand_distr` sampler for every prior of rv: opaque),
+    `likDraw fx j` = the likelihood's `draw` started at word `j`. -/
+def conjugateDraw {θ β : Type} (postDraw : Nat → Outcome θ) (likDraw : θ → Nat → Outcome β) (i : Nat) : Outcome β :=
+  match postDraw i with
+  | .ok fx j => likDraw fx j
+  | .panic => .panic
+  | .hang => .hang
+
+/-- `ConjugateModel::sample`, model.rs:132-140 — a SEPARATE implementation:
+    `post = self.posterior(); (0..n).map(|_| { fx = post.draw(rng); fx.draw(rng) })`: a FRESH likelihood per element -/
+def conjugateSample {θ β : Type} (postDraw : Nat → Outcome θ) (likDraw : θ → Nat → Outcome β) (n : Nat) : Outcome (List β) :=
+  iterDraws (fun i =>
+    match postDraw i with
+    | .ok fx j => likDraw fx j
+    | .panic => .panic
+    | .hang => .hang) n 0
+
+/-- the Bernoulli likelihood draw of a drawn parameter `p` as an `Outcome` (one `Open01` word) -/
+def bernoulliLik (ws : List Nat) (p : α) (j : Nat) : Outcome Bool :=
+  .ok (bernoulliDraw ⟨p⟩ (open01 (wordAt ws j))) (j + 1)
+
 /-! ## Delegating samplers: the `rand_distr-0.4.3` constructor call and the argument mapping
 
   For these `draw` only re-parameterises; the sampler itself (`rand_distr`) is opaque.  `RDCall.args` are the constructor
